@@ -108,6 +108,12 @@ def gen(rng):
     opts = []
     if rng.random() < 0.15:
         opts += ['--trash-dir', rng.choice([home + '/ct', d + '/../ct2', 'relct'] + [v + '/ct' for v in L['vols']])]
+    elif L['vols'] and rng.random() < 0.04:
+        # --trash-dir spelled through '<symlink>/..', the link leading to a directory of another volume: the kernel resolves it to
+        # a directory on THAT volume (a textual normalisation names a directory next to the link)
+        v_ = rng.choice(L['vols'])
+        steps.append(['l', home + '/stick', L['work'][v_]])
+        opts += ['--trash-dir', home + '/stick/../ct3']
     if rng.random() < 0.2:
         opts.append('--home-fallback')
     if rng.random() < 0.2:
